@@ -499,7 +499,7 @@ fn build_debug_for_struct(
     let use_bounds = e.push_bounds_to_with(hattrs, kind, &mut wcb);
     let to_expr = |field: &FieldEntry| {
         let member = field.member();
-        quote!(&self.#member)
+        quote!(&&self.#member)
     };
     let expr = build_debug_expr(
         this_ty_ident,
@@ -539,7 +539,7 @@ fn build_debug_for_enum(
         let use_bounds = variant.hattrs.push_bounds_to(use_bounds, kind, &mut wcb);
         let to_expr = |field: &FieldEntry| {
             let var = field.make_ident("");
-            quote!(#var)
+            quote!(&#var)
         };
         let expr = build_debug_expr(
             variant_ident,
